@@ -598,6 +598,43 @@ class ExecBase:
         out.st["slice_of"] = (obj, start, stop, step, newlen)
         return out
 
+    def _comprehension(s, n, p, elt, kindname, lazy):
+        """[elt for x in seq] / (elt for x in seq): a map over one sequence, no filter: element j is elt[x := seq[j]]"""
+        if len(n.generators) != 1 or n.generators[0].ifs or n.generators[0].is_async:
+            raise Unsupported(f"comprehension shape @ line {n.lineno}")
+        gen = n.generators[0]
+        def k(p1, vs):
+            seqv = vs[0]
+            def build(ex, pb, kname):
+                nn, elem, static = ex.iter_desc(pb, seqv, n)
+                base = pb.clone()
+                arr = fresh("comp_el", AV)
+                new = pb.new_seq(kname, length=nn, arr=arr)
+                def sch(pth, j):
+                    tmp = base.clone()
+                    for o0 in ex.assign(gen.target, elem(tmp, j), tmp):
+                        if o0.kind != "normal":
+                            raise Unsupported("comprehension target")
+                    n0 = len(tmp.pc)
+                    rs = ex.ev(elt, tmp)
+                    if len(rs) != 1 or rs[0][0] != "ok":
+                        raise Unsupported(f"comprehension element forks @ line {n.lineno}")
+                    facts = rs[0][1].pc[len(base.pc):]
+                    return And([Implies(And(j >= 0, j < nn), Select(arr, j) == rs[0][2].t)] +
+                               [Implies(And(j >= 0, j < nn), f) for f in facts])
+                pb.add_schema(new, sch)
+                return [("ok", pb, SV(new, ty=kname, comp_of=seqv))]
+            if lazy:
+                return [("ok", p1, SV(fresh("genexp"), special=("genexp", build)))]
+            return build(s, p1, kindname)
+        return s.seq([gen.iter], p, k)
+
+    def e_ListComp(s, n, p):
+        return s._comprehension(n, p, n.elt, "list", False)
+
+    def e_GeneratorExp(s, n, p):
+        return s._comprehension(n, p, n.elt, "list", True)
+
     def e_Lambda(s, n, p):
         return [("ok", p, SV(fresh("lambda"), lam=n, closure=dict(p.env)))]
 
